@@ -625,3 +625,176 @@ Proof.
     intros n Hin. apply in_app_or in Hin. destruct Hin as [Hin|[Hin|[]]]; [apply Hp; exact Hin|].
     subst e. destruct He.
 Qed.
+
+(* ------------------------------------------------------------------ fuel: the input that is left *)
+
+(* items of the peer's stream that are still to come, on both layers *)
+Definition rem (w : world) : nat := script_len (w_script w) + script_len (w_tls w).
+
+Lemma read_tok_from_rem pl s : forall w,
+  script_len (w_script (snd (read_tok_from pl w s))) <= script_len s /\
+  w_tls (snd (read_tok_from pl w s)) = w_tls w /\
+  (forall t, fst (read_tok_from pl w s) = Some t -> script_len (w_script (snd (read_tok_from pl w s))) < script_len s).
+Proof.
+  induction s as [|it r IH]; intro w; cbn [read_tok_from].
+  - cbn. repeat split; try lia. all: intros t H; discriminate.
+  - destruct it as [t0|].
+    + cbn. repeat split; try lia.
+    + unfold do_read_op. destruct (op_ok pl w false && true).
+      * match goal with |- context [read_tok_from pl ?w0 r] => destruct (IH w0) as [H1 [H2 H3]] end.
+        cbn [script_len]. repeat split; [lia | rewrite H2; reflexivity |].
+        intros t Ht. specialize (H3 t Ht). lia.
+      * cbn. repeat split; try lia. all: intros t H; discriminate.
+Qed.
+
+Lemma read_tok_rem pl w : rem (snd (read_tok pl w)) <= rem w.
+Proof.
+  unfold rem, read_tok. destruct (read_tok_from_rem pl (w_script w) w) as [H1 [H2 _]]. rewrite H2. lia.
+Qed.
+
+Lemma read_tok_rem_some pl w t w' : read_tok pl w = (Some t, w') -> rem w' < rem w.
+Proof.
+  unfold rem, read_tok. intro H. destruct (read_tok_from_rem pl (w_script w) w) as [_ [H2 H3]].
+  rewrite H in H2, H3. cbn [fst snd] in H2, H3. rewrite H2. specialize (H3 t eq_refl). lia.
+Qed.
+
+Lemma drop_to_brk_len s : script_len (drop_to_brk s) <= script_len s.
+Proof. induction s as [|[t|] r IH]; cbn; lia. Qed.
+
+Lemma do_restart_rem rs w : rem (do_restart rs w) <= rem w.
+Proof.
+  unfold rem. destruct rs; cbn; try lia.
+  pose proof (drop_to_brk_len (w_script w)). lia.
+Qed.
+
+Lemma interp_rem A (p : prog A) pl : forall w, rem (snd (interp pl p w)) <= rem w.
+Proof.
+  induction p as [a| | | |k IH|s k IH|s k IH|ke IHe k IH|ko IHo ke IHe|k IH|m k IH|rs k IH|e k IH]; intro w; cbn [interp];
+    try (cbn; lia).
+  - pose proof (read_tok_rem pl w) as Hr. destruct (read_tok pl w) as [[t|] w1]; cbn [snd] in *.
+    + specialize (IH t w1). lia.
+    + exact Hr.
+  - unfold do_write. destruct (op_ok pl w true); cbn [snd].
+    + match goal with |- context [interp pl k ?w0] => specialize (IH w0); assert (rem w0 = rem w) by reflexivity end. lia.
+    + unfold rem. cbn. lia.
+  - unfold do_write. match goal with |- context [interp pl k ?w0] => specialize (IH w0); assert (rem w0 = rem w) by reflexivity end. lia.
+  - destruct (ctx_done pl w); cbn [snd].
+    + specialize (IHe w). unfold rem in *. cbn. exact IHe.
+    + match goal with |- context [interp pl k ?w0] => specialize (IH w0); assert (rem w0 = rem w) by reflexivity end. lia.
+  - destruct (w_calls w) as [|v vs]; [cbn; lia|].
+    destruct (sval_err v); cbn [snd].
+    + match goal with |- context [interp pl (ke v) ?w0] => specialize (IHe v w0); assert (rem w0 = rem w) by reflexivity end. lia.
+    + match goal with |- context [interp pl (ko v) ?w0] => specialize (IHo v w0); assert (rem w0 = rem w) by reflexivity end. lia.
+  - apply IH.
+  - match goal with |- context [interp pl k ?w0] => specialize (IH w0); assert (rem w0 = rem w) by reflexivity end. lia.
+  - specialize (IH (do_restart rs w)). pose proof (do_restart_rem rs w). lia.
+  - match goal with |- context [interp pl k ?w0] => specialize (IH w0); assert (rem w0 = rem w) by reflexivity end. lia.
+Qed.
+
+(* [fits b p]: with at most b items of input left, p never reaches an OutOfFuel leaf.
+   A token read that succeeds leaves strictly fewer items. *)
+Inductive fits {A} : nat -> prog A -> Prop :=
+| ft_ret b a : fits b (Ret a)
+| ft_fail b : fits b Fail
+| ft_stuck b : fits b Stuck
+| ft_rd b k : (forall t b', b' < b -> fits b' (k t)) -> fits b (Rd k)
+| ft_wr b s k : fits b k -> fits b (Wr s k)
+| ft_wru b s k : fits b k -> fits b (WrU s k)
+| ft_ctx b ke k : fits b k -> fits b (Ctx ke k)
+| ft_call b ko ke : (forall v, fits b (ko v)) -> fits b (Call ko ke)
+| ft_get b k : (forall x, fits b (k x)) -> fits b (GetBits k)
+| ft_or b m k : fits b k -> fits b (OrBits m k)
+| ft_restart b rs k : fits b k -> fits b (Restart rs k)
+| ft_log b e k : fits b k -> fits b (Log e k).
+
+Theorem fits_sound A (p : prog A) pl b : fits b p -> forall w, rem w <= b -> fst (interp pl p w) <> RFuel.
+Proof.
+  induction 1 as [b a|b|b|b k _ IH|b s k _ IH|b s k _ IH|b ke k _ IH|b ko ke _ IH|b k _ IH|b m k _ IH|b rs k _ IH|b e k _ IH];
+    intros w Hw; cbn [interp]; try (cbn; discriminate).
+  - destruct (read_tok pl w) as [[t|] w1] eqn:E; [|cbn; discriminate].
+    pose proof (read_tok_rem_some pl w E) as Hlt. apply (IH t (rem w1)); lia.
+  - unfold do_write. destruct (op_ok pl w true); [|cbn; discriminate]. apply IH. exact Hw.
+  - unfold do_write. apply IH. exact Hw.
+  - destruct (ctx_done pl w); [cbn; discriminate|]. apply IH. exact Hw.
+  - destruct (w_calls w) as [|v vs]; [cbn; discriminate|].
+    destruct (sval_err v); [cbn; discriminate|]. apply IH. exact Hw.
+  - apply IH. exact Hw.
+  - apply IH. exact Hw.
+  - apply IH. pose proof (do_restart_rem rs w). lia.
+  - apply IH. exact Hw.
+Qed.
+
+Lemma fits_mono A (p : prog A) b : fits b p -> forall b', b' <= b -> fits b' p.
+Proof.
+  induction 1 as [b a|b|b|b k _ IH|b s k _ IH|b s k _ IH|b ke k _ IH|b ko ke _ IH|b k _ IH|b m k _ IH|b rs k _ IH|b e k _ IH];
+    intros b1 Hb; constructor; auto.
+  intros t b2 Hb2. apply (IH t b2); lia.
+Qed.
+
+Lemma fits_bind A B (p : prog A) b : fits b p -> forall (f : A -> prog B), (forall a, fits b (f a)) -> fits b (bind p f).
+Proof.
+  induction 1 as [b a|b|b|b k _ IH|b s k _ IH|b s k _ IH|b ke k _ IH|b ko ke _ IH|b k _ IH|b m k _ IH|b rs k _ IH|b e k _ IH];
+    intros f Hf; cbn [bind]; try (constructor; auto; fail).
+  - apply Hf.
+  - constructor. intros t b' Hb'. apply IH; [exact Hb'|]. intro a. eapply fits_mono; [apply Hf | lia].
+Qed.
+
+Lemma fits_feed A : forall ts (p : prog A) b, fits (b + length ts) p -> fits b (feed ts p).
+Proof.
+  induction ts as [|t ts IH]; intros p b H; cbn [feed].
+  - rewrite Nat.add_0_r in H. destruct p; exact H.
+  - cbn [length] in H.
+    induction p as [a| | | |k IHp|s k IHp|s k IHp|ke IHe k IHp|ko IHo ke IHe|k IHp|m k IHp|rs k IHp|e k IHp];
+      cbn [feed]; inversion H; subst; try (constructor; auto; fail).
+    apply IH. match goal with Hk : forall t b', b' < _ -> fits b' (k t) |- _ => apply Hk end. lia.
+Qed.
+
+(* [eats p]: p returns a value only after it has read a token *)
+Inductive eats {A} : prog A -> Prop :=
+| ea_fail : eats Fail
+| ea_stuck : eats Stuck
+| ea_fuel : eats OutOfFuel
+| ea_rd k : eats (Rd k)
+| ea_wr s k : eats k -> eats (Wr s k)
+| ea_wru s k : eats k -> eats (WrU s k)
+| ea_ctx ke k : eats k -> eats (Ctx ke k)
+| ea_call ko ke : (forall v, eats (ko v)) -> eats (Call ko ke)
+| ea_get k : (forall b, eats (k b)) -> eats (GetBits k)
+| ea_or m k : eats k -> eats (OrBits m k)
+| ea_restart rs k : eats k -> eats (Restart rs k)
+| ea_log e k : eats k -> eats (Log e k).
+
+Theorem eats_sound A (p : prog A) pl : eats p -> forall w a w', interp pl p w = (ROk a, w') -> rem w' < rem w.
+Proof.
+  induction 1 as [ | | |k|s k _ IH|s k _ IH|ke k _ IH|ko ke _ IH|k _ IH|m k _ IH|rs k _ IH|e k _ IH];
+    intros w a w'; cbn [interp]; try discriminate.
+  - destruct (read_tok pl w) as [[t|] w1] eqn:E; [|discriminate].
+    intro H. pose proof (read_tok_rem_some pl w E). pose proof (interp_rem (k t) pl w1) as Hr. rewrite H in Hr. cbn in Hr. lia.
+  - unfold do_write. destruct (op_ok pl w true); [|discriminate]. intro H. apply IH in H. exact H.
+  - unfold do_write. intro H. apply IH in H. exact H.
+  - destruct (ctx_done pl w); [discriminate|]. intro H. apply IH in H. exact H.
+  - destruct (w_calls w) as [|v vs]; [discriminate|]. destruct (sval_err v); [discriminate|].
+    intro H. apply IH in H. exact H.
+  - apply IH.
+  - intro H. apply IH in H. exact H.
+  - intro H. apply IH in H. pose proof (do_restart_rem rs w). lia.
+  - intro H. apply IH in H. exact H.
+Qed.
+
+Lemma eats_bind_l A B (p : prog A) (f : A -> prog B) : eats p -> eats (bind p f).
+Proof. induction 1; cbn; constructor; auto. Qed.
+
+Lemma eats_bind_r A B (p : prog A) (f : A -> prog B) : (forall a, eats (f a)) -> eats (bind p f).
+Proof. intro Hf. induction p; cbn; try (constructor; auto; fail). apply Hf. Qed.
+
+(* sequencing with a postcondition of the first program *)
+Lemma fits_bind2 A B (R : A -> Prop) (p : prog A) : forall b, fits b p -> rets R p ->
+  forall f : A -> prog B, (forall a, R a -> fits b (f a)) -> fits b (bind p f).
+Proof.
+  induction p as [a| | | |k IH|s k IH|s k IH|ke IHe k IH|ko IHo ke IHe|k IH|m k IH|rs k IH|e k IH];
+    intros b Hf Hr f Hc; inversion Hf; subst; inversion Hr; subst; cbn [bind];
+    try (constructor; auto; fail).
+  - apply Hc. assumption.
+  - constructor. intros t b' Hb'. apply IH; auto.
+    intros a Ha. eapply fits_mono; [apply Hc; exact Ha | lia].
+Qed.
